@@ -54,6 +54,14 @@ def _is_linear(e, _cache={}):
     return True
 
 
+def _is_int_term(t):
+    if isinstance(t, bool):
+        return False
+    if isinstance(t, int):
+        return True
+    return z3.is_expr(t) and t.sort() == z3.IntSort()
+
+
 class PathCtx:
     BRANCH_TIMEOUT_MS = 1500
 
@@ -83,12 +91,15 @@ class PathCtx:
         self.dirty_roots = set()
         self.sanctioned = set()
         self.oblig_prefix = ""
+        self.oblig_tag = ""
         self.writes = []           # (description, owner roots)
         self.inputs = {}           # name -> symbolic input description (for replay)
         self.depth = 0
         self.events = []           # forcing operations etc. (typestate)
         self.opaque_registry = []  # opaque arrays created on this path (for unification)
         self.lemma_hooks = []
+        self.folds = []            # MaxOver/MinOver symbols over symbolic index ranges (see fold_extreme)
+        self.fold_points = []      # (index term, length term) at which fold universals are instantiated
 
     # -- symbols ---------------------------------------------------------------------
     def fresh(self, prefix, sort="real"):
@@ -98,6 +109,47 @@ class PathCtx:
         if sort == "int":
             return z3.Int(n)
         return z3.Bool(n)
+
+    # -- extrema over symbolic index ranges --------------------------------------------------
+    def fold_extreme(self, kind, n, f, tag="fold"):
+        """The maximum (kind='max') / minimum ('min') of f(i) over 0 <= i < n, n >= 1 symbolic.
+
+        Returned as a fresh integer/real symbol m with its *defining* facts, quantifier-free:
+        attained at a witness w (0 <= w < n, m == f(w)) and bounding f at every registered index
+        term of a range of the same length: the witnesses of all other folds, and the Skolem
+        indices registered with `fold_point` (post-condition indices).  Instantiating a
+        universal fact at finitely many terms only weakens what is assumed (sound); which
+        points are needed for completeness is what the cross-instantiation provides: two
+        extrema of pointwise-related functions are compared through each other's witnesses."""
+        nk = z3.simplify(Z(n) if not isinstance(n, int) else z3.IntVal(n)).sexpr()
+        w = self.fresh(f"w_{tag}", "int")
+        fw = f(w)
+        m = self.fresh(f"{kind}_{tag}", "int" if _is_int_term(fw) else "real")
+        self.assume(z3.And(w >= 0, w < Z(n)), why=f"fold-witness-range:{tag}")
+        self.assume(m == Z(fw), why=f"fold-attained:{tag}")
+        rec = {"kind": kind, "n": nk, "f": f, "m": m, "w": w, "tag": tag}
+        def inst(rec, i):
+            fi = Z(rec["f"](i))
+            self.assume((rec["m"] >= fi) if rec["kind"] == "max" else (rec["m"] <= fi), why=f"fold-bound:{rec['tag']}")
+        for other in self.folds:
+            if other["n"] == nk:
+                inst(other, w)
+                inst(rec, other["w"])
+        for (i, k) in self.fold_points:
+            if k == nk:
+                inst(rec, i)
+        self.folds.append(rec)
+        self.note("math: extremum over a symbolic index range introduced by witness + ground instances of its bound")
+        return m
+
+    def fold_point(self, i, n):
+        """Register an index term i (0 <= i < n) at which every extremum over a range of length n is bounded."""
+        nk = z3.simplify(Z(n) if not isinstance(n, int) else z3.IntVal(n)).sexpr()
+        self.fold_points.append((i, nk))
+        for rec in self.folds:
+            if rec["n"] == nk:
+                fi = Z(rec["f"](i))
+                self.assume((rec["m"] >= fi) if rec["kind"] == "max" else (rec["m"] <= fi), why=f"fold-bound:{rec['tag']}")
 
     # -- assumptions ----------------------------------------------------------------
     def assume(self, f, why="assume"):
@@ -207,6 +259,7 @@ class PathCtx:
             def __enter__(self_):
                 self_.n = len(ctx.pc)
                 self_.dc = dict(ctx.div_cache)
+                self_.nf, self_.np = len(ctx.folds), len(ctx.fold_points)
                 ctx.solver.push()
                 ctx.lin.push()
 
@@ -214,6 +267,8 @@ class PathCtx:
                 del ctx.pc[self_.n:]
                 del ctx.pc_why[self_.n:]
                 ctx.div_cache = self_.dc
+                del ctx.folds[self_.nf:]
+                del ctx.fold_points[self_.np:]
                 ctx.solver.pop()
                 ctx.lin.pop()
                 return False
@@ -224,6 +279,8 @@ class PathCtx:
         if isinstance(goal, bool):
             goal = z3.BoolVal(goal)
         goal = Z(goal)
+        if self.oblig_tag:
+            name = f"{name}[{self.oblig_tag}]"
         self.obligations.append(Obligation(self.oblig_prefix + name, list(self.pc), goal, kind, meta,
                                            path=list(self.trace)))
 
